@@ -4,6 +4,8 @@ MODULES = {
     # name -> where the package under test lives in /repo and which harness directory is overlaid into it
     "rueidis": {"dir": ".", "harness": "rueidis"},
     "rueidiscompat": {"dir": "rueidiscompat", "harness": "rueidiscompat", "package": "rueidiscompat"},
+    "rueidislimiter": {"dir": "rueidislimiter", "harness": "rueidislimiter", "package": "rueidislimiter",
+                       "extra_mod": ["require github.com/anishathalye/porcupine v1.3.0"]},
 }
 
 REAL = ("all of package github.com/redis/rueidis built from /repo's working tree with -tags verif "
